@@ -41,6 +41,9 @@
 #ifndef H_DEFSTATE
 #define H_DEFSTATE 0x3fff
 #endif
+#ifndef H_TAPI
+#define H_TAPI 0       // 1: use the template overloads of the API (changeTo<T>(), isActive<T>(), plan.change<A, B>(), ...) instead of the StateID ones
+#endif
 #ifndef H_HEADER
 #define H_HEADER <ffsm2/machine.hpp>
 #endif
@@ -185,6 +188,34 @@ template <int... Is> struct Mk<Seq<Is...>> { using Type = M::PeerRoot<St<Is>...>
 using FSM = Mk<MakeSeq<H_N>::Type>::Type;
 using Transition = M::Transition;
 
+#if H_TAPI
+// run f.call<St<id>>() for a run-time id: lets the script drive the template overloads of the API
+template <typename F, int... Is> static void withStateImpl(int id, F& f, Seq<Is...>) { int d[] = {0, (id == Is ? (f.template call<St<Is>>(), 0) : 0)...}; (void) d; }
+template <typename F> static void withState(int id, F& f) { withStateImpl(id, f, MakeSeq<H_N>::Type{}); }
+template <typename C> struct FIsActive { const C& c; bool r; template <typename T> void call() { r = c.template isActive<T>(); } };
+template <typename C> static bool isActiveT(const C& c, int k) { FIsActive<C> f{c, false}; withState(k, f); return f.r; }
+template <typename C> struct FChangeTo { C& c; template <typename T> void call() { c.template changeTo<T>(); } };
+template <typename C> struct FImmChangeTo { C& c; template <typename T> void call() { c.template immediateChangeTo<T>(); } };
+template <typename C> struct FSucceed { C& c; template <typename T> void call() { c.template succeed<T>(); } };
+template <typename C> struct FFail { C& c; template <typename T> void call() { c.template fail<T>(); } };
+#if H_PAYLOAD
+template <typename C> struct FChangeWith { C& c; const Payload& p; template <typename T> void call() { c.template changeWith<T>(p); } };
+template <typename C> struct FImmChangeWith { C& c; const Payload& p; template <typename T> void call() { c.template immediateChangeWith<T>(p); } };
+#endif
+#if H_PLANS
+template <typename TPlan, typename TO> struct FPlanDest { TPlan& plan; bool r; template <typename TD> void call() { r = plan.template change<TO, TD>(); } };
+template <typename TPlan> struct FPlanOrigin { TPlan& plan; int d; bool r; bool half; template <typename TO> void call() {
+	if (half) r = plan.template change<TO>(ffsm2::StateID(d));
+	else { FPlanDest<TPlan, TO> g{plan, false}; withState(d, g); r = g.r; } } };
+#if H_PAYLOAD
+template <typename TPlan, typename TO> struct FPlanDestW { TPlan& plan; const Payload& p; bool r; template <typename TD> void call() { r = plan.template changeWith<TO, TD>(p); } };
+template <typename TPlan> struct FPlanOriginW { TPlan& plan; int d; const Payload& p; bool r; bool half; template <typename TO> void call() {
+	if (half) r = plan.template changeWith<TO>(ffsm2::StateID(d), p);
+	else { FPlanDestW<TPlan, TO> g{plan, p, false}; withState(d, g); r = g.r; } } };
+#endif
+#endif
+#endif
+
 static Ctx g_ctx[4];               // external context objects for reference / pointer contexts
 static const void* g_ctx_addr[4] = {nullptr, nullptr, nullptr, nullptr};   // where instance i's own context lives
 
@@ -222,7 +253,11 @@ struct KConst {}; struct KPlan {}; struct KFull {}; struct KGuard {};
 
 template <typename C> static std::string viewCommon(const C& c) {
 	std::ostringstream o; o << " id=" << int(c.stateId()) << " act=";
+#if H_TAPI
+	for (int k = 0; k < H_N; ++k) o << (isActiveT(c, k) ? '1' : '0');
+#else
 	for (int k = 0; k < H_N; ++k) o << (c.isActive(ffsm2::StateID(k)) ? '1' : '0');
+#endif
 	o << " req=" << tstr(c.request());
 	return o.str();
 }
@@ -261,9 +296,17 @@ static std::string actStr(const Act& a) {
 // ---- performing scripted actions through a control ----
 template <typename TPlan> static std::string doPlanOn(TPlan plan, const Act& a) {
 #if H_PLANS
+#if H_TAPI
+	// alternate between plan.change<O, D>() and plan.change<O>(destination) by the parity of the destination
+	if (a.op == "plan.append") { FPlanOrigin<TPlan> f{plan, a.b, false, (a.b & 1) != 0}; withState(a.a, f); return f.r ? "ok" : "full"; }
+#if H_PAYLOAD
+	if (a.op == "plan.appendWith") { const Payload pl = mkPayload(a.p); FPlanOriginW<TPlan> f{plan, a.b, pl, false, (a.b & 1) != 0}; withState(a.a, f); return f.r ? "ok" : "full"; }
+#endif
+#else
 	if (a.op == "plan.append") return plan.change(ffsm2::StateID(a.a), ffsm2::StateID(a.b)) ? "ok" : "full";
 #if H_PAYLOAD
 	if (a.op == "plan.appendWith") return plan.changeWith(ffsm2::StateID(a.a), ffsm2::StateID(a.b), mkPayload(a.p)) ? "ok" : "full";
+#endif
 #endif
 	if (a.op == "plan.clear") { plan.clear(); return "ok"; }
 	if (a.op == "plan.removeAt") {
@@ -287,9 +330,15 @@ template <typename C> static std::string doPlan(C& c, const Act& a) {
 #endif
 }
 template <typename C> static bool doFull(C& c, const Act& a, int self, std::string& res) {
+#if H_TAPI
+	if (a.op == "change") { FChangeTo<C> f{c}; withState(a.a, f); res = "ok"; return true; }
+#else
 	if (a.op == "change") { c.changeTo(ffsm2::StateID(a.a)); res = "ok"; return true; }
+#endif
 	if (a.op == "changeWith") {
-#if H_PAYLOAD
+#if H_PAYLOAD && H_TAPI
+		{ const Payload pl = mkPayload(a.p); FChangeWith<C> f{c, pl}; withState(a.a, f); } res = "ok";
+#elif H_PAYLOAD
 		c.changeWith(ffsm2::StateID(a.a), mkPayload(a.p)); res = "ok";
 #else
 		res = "ignored";
@@ -300,7 +349,12 @@ template <typename C> static bool doFull(C& c, const Act& a, int self, std::stri
 #if H_PLANS
 		const int sid = a.self ? self : a.a;
 		if (sid == 255) { res = "ignored"; return true; }     // the root head has no report bit (asserted precondition)
+#if H_TAPI
+		if (a.self) { if (a.op == "succeed") c.succeed(); else c.fail(); }          // the argument-free forms report for the calling state
+		else if (a.op == "succeed") { FSucceed<C> f{c}; withState(sid, f); } else { FFail<C> f{c}; withState(sid, f); }
+#else
 		if (a.op == "succeed") c.succeed(ffsm2::StateID(sid)); else c.fail(ffsm2::StateID(sid));
+#endif
 		res = "ok";
 #else
 		(void) self; res = "ignored";
@@ -334,6 +388,8 @@ template <typename C, typename K> static void on(int who, int rec, int meth, C& 
 	s.trace += ctxOk ? " ctx=1" : " ctx=0";
 	if (meth >= M_preReact && meth <= M_query) s.trace += (ev == g_event_addr) ? " ev=1" : " ev=0";
 	s.trace += "\n";
+	// a machine that never stops calling back (a broken substitution limit) must not eat the sandbox's memory
+	if (s.trace.size() > (24u << 20)) { fputs(s.trace.substr(0, 1u << 20).c_str(), stdout); fputs("\nrunaway: more than 24 MB of trace inside one API call\n", stderr); fflush(stdout); _Exit(97); }
 	const int occ = s.counts[inst][who < 0 ? 256 : who][rec + 1][meth]++;
 	const int pd = pendDest(c, k), cd = curDest(c, k);
 	for (auto& e : s.table) {
@@ -513,7 +569,11 @@ static void obs(int inst, const FSM::Instance& m) {
 	o << " on=" << (m.activeStateId() != ffsm2::INVALID_STATE_ID ? 1 : 0);
 #endif
 	o << " act=";
+#if H_TAPI
+	for (int k = 0; k < H_N; ++k) o << (isActiveT(m, k) ? '1' : '0');
+#else
 	for (int k = 0; k < H_N; ++k) o << (m.isActive(ffsm2::StateID(k)) ? '1' : '0');
+#endif
 #if H_HISTORY
 	o << " prev=" << tstr(m.previousTransition());
 #else
@@ -645,6 +705,18 @@ int main() {
 			else if (op == "update") m->update();
 			else if (op == "react") { Ev e{7}; g_event_addr = &e; m->react(e); g_event_addr = nullptr; }
 			else if (op == "query") { Ev e{7}; g_event_addr = &e; const FSM::Instance& cm = *m; cm.query(e); g_event_addr = nullptr; }
+#if H_TAPI
+			else if (op == "change") { int d; args >> d; FChangeTo<FSM::Instance> f{*m}; withState(d, f); }
+			else if (op == "immChange") { int d; args >> d; FImmChangeTo<FSM::Instance> f{*m}; withState(d, f); }
+#if H_PAYLOAD
+			else if (op == "changeWith") { int d, p; args >> d >> p; const Payload pl = mkPayload(p); FChangeWith<FSM::Instance> f{*m, pl}; withState(d, f); }
+			else if (op == "immChangeWith") { int d, p; args >> d >> p; const Payload pl = mkPayload(p); FImmChangeWith<FSM::Instance> f{*m, pl}; withState(d, f); }
+#endif
+#if H_PLANS
+			else if (op == "succeed") { int s; args >> s; FSucceed<FSM::Instance> f{*m}; withState(s, f); }
+			else if (op == "fail") { int s; args >> s; FFail<FSM::Instance> f{*m}; withState(s, f); }
+#endif
+#else
 			else if (op == "change") { int d; args >> d; m->changeTo(ffsm2::StateID(d)); }
 			else if (op == "immChange") { int d; args >> d; m->immediateChangeTo(ffsm2::StateID(d)); }
 #if H_PAYLOAD
@@ -654,6 +726,10 @@ int main() {
 #if H_PLANS
 			else if (op == "succeed") { int s; args >> s; m->succeed(ffsm2::StateID(s)); }
 			else if (op == "fail") { int s; args >> s; m->fail(ffsm2::StateID(s)); }
+#endif
+#endif
+#if H_PLANS
+			else if (false) {}
 			else if (op.rfind("plan.", 0) == 0) {
 				Act a; a.op = op;
 				if (op == "plan.append") args >> a.a >> a.b; else if (op == "plan.appendWith") args >> a.a >> a.b >> a.p; else if (op == "plan.removeAt") args >> a.a;
